@@ -304,9 +304,11 @@ pub fn sweep(w: usize, item: &dyn Fn(usize) -> (Value, Value), obs: &mut Obs) ->
 }
 
 pub fn sweep_cases(kinds: u64, max_w: usize) -> Vec<Value> {
+    // W-major: the kinds alternate, so items of one kind are revisited after the other kinds have pushed many distinct
+    // keys through whatever state there is
     let mut out = vec![];
-    for kind in 0..kinds {
-        for w in 1..=max_w {
+    for w in 1..=max_w {
+        for kind in 0..kinds {
             out.push(json!({"w": w, "kind": kind}));
         }
     }
